@@ -49,7 +49,7 @@ def fixed_loop(inv):
 def arm(name, header, sig_params, post, loop_fn=None, rewrites=(), obligation=""):
     return Fn(file=N, name="resolve_expr", container=NR, as_method_of=NR, rename=name, ret="r",
               attrs="#[verifier::loop_isolation(false)]",
-              cut_from=header, cut_before="@block-end", cut_tail="",
+              cut_from=header, cut_inside=True, cut_before="@block-end", cut_tail="",
               sig=f"pub fn {name}(&mut self, {sig_params}, {ARGS}", rewrites=list(rewrites),
               contract=f"ensures {post},", loop_fn=loop_fn, obligation=obligation,
               ghost=[("@entry", "", "proof { broadcast use vstd::seq::group_seq_axioms; reveal_with_fuel(leak, 2); reveal_with_fuel(leaks, 2); }")])
